@@ -126,6 +126,21 @@ CHECKS = {
                      '2 credential sets, a transient fault at every position of a streamed upload) is re-verified by an independent '
                      'SigV4 implementation incl. payload hash and content length',
                 note='"+" in a received query tried as space and literally', technique='exhaustive input-class enumeration against an independent SigV4 verifier'),
+    'C12': dict(cat='fault_enumeration', ref='2/C12', engine='E3',
+                text='real S3Compatible and B2 adapters on fake services and the real Local adapter with its file-system calls interposed: '
+                     'for every operation, every request role / file-system step x 14 fault kinds (connect error, reset after k request '
+                     'chunks, 5xx/429/401/408 with and without retry-after, response dropped after k chunks; OSError at each step) x '
+                     'c = 1..measured budget consecutive faults, forever, and pairs at two positions; within budget the call returns with '
+                     'exactly the intended bytes stored / delivered and nothing temporary left, persistent faults end in an exception after '
+                     'a bounded number of requests',
+                note='retry budget measured per role and fault kind; listing is only required to be bounded', technique='exhaustive fault-position enumeration'),
+    'C13': dict(cat='model_checking', ref='2/C13', engine='E2',
+                text='real Local (6 spellings of the repository path), S3Compatible and B2 (fake services, listing pages of 2) against a dict '
+                     'model: every subset of 7 object names as a state (built through the adapter), in every state all observers '
+                     '(exists/download/download_stream x names, list x 10 prefixes) and all 8 mutations x 7 names compared with the model '
+                     'and the raw store; plus all sequences of <=3/4 mutations over 3 names',
+                note='fake services implement the documented wire behaviour; atomic replacement under a concurrent reader is decided by C03(b)',
+                technique='explicit-state enumeration against a reference model'),
 }
 NOT_YET = {}
 
@@ -162,11 +177,11 @@ m = {
     'engines': [
         {'name': 'E1', 'path': 'mc/dsched.py + mc/explore.py', 'serves_properties': ['C09', 'C02', 'C03', 'C14', 'C20'],
          'kind_free_text': 'deterministic scheduler for real threads + virtual asyncio loop; deviation-bounded stateless explorer'},
-        {'name': 'E2', 'path': 'mc/hist.py', 'serves_properties': ['C02', 'C06', 'C07', 'C08', 'C15', 'C18'],
+        {'name': 'E2', 'path': 'mc/hist.py', 'serves_properties': ['C02', 'C06', 'C07', 'C08', 'C13', 'C15', 'C18'],
          'kind_free_text': 'explicit-state BFS over command histories; transitions run the real commands with fresh Repository objects'},
         {'name': 'E3+E1', 'path': 'checks/C14.py', 'serves_properties': ['C14'], 'kind_free_text': 'product enumeration + completion-order exploration'},
         {'name': 'E2+E1', 'path': 'mc/hist.py + mc/explore.py', 'serves_properties': ['C02'], 'kind_free_text': 'both'},
-        {'name': 'E3', 'path': 'mc/common.py (pmap) + per-check menus', 'serves_properties': ['C01', 'C04', 'C05', 'C10', 'C11', 'C14', 'C16', 'C17', 'C19'],
+        {'name': 'E3', 'path': 'mc/common.py (pmap) + per-check menus', 'serves_properties': ['C01', 'C04', 'C05', 'C10', 'C11', 'C12', 'C14', 'C16', 'C17', 'C19'],
          'kind_free_text': 'complete product enumeration of small menus, sharded over 16 processes'},
     ],
     'checks': checks,
